@@ -660,6 +660,7 @@ def retry_kwargs(env: Env, cfg: dict, *, is_async: bool, placement: dict) -> dic
         deadline_s=deadline_s,
         max_attempts=cfg.get("max_attempts", 3),
         max_unknown_attempts=cfg.get("max_unknown"),
+        attempt_timeout_s=cfg.get("attempt_timeout"),
         per_class_max_attempts={ErrorClass[k]: v for k, v in (cfg.get("per_class") or {}).items()} or None,
     )
     kw.update(policy_level_callbacks(env, placement, is_async))
@@ -725,8 +726,23 @@ def parse_entry(entry: str) -> dict:
     return {"api": api, "mode": mode, "async": is_async}
 
 
+_LOOP = None
+USE_LOOP = False  # set while a case with attempt_timeout_s runs: asyncio.wait_for needs a real event loop
+
+
+def _loop():
+    global _LOOP
+    if _LOOP is None or _LOOP.is_closed():
+        _LOOP = asyncio.new_event_loop()
+    return _LOOP
+
+
 def drive(coro) -> Any:
-    """Run a coroutine that never suspends (E1); suspension is a harness error here."""
+    """Run a coroutine that never suspends (E1); suspension is a harness error here.
+
+    With USE_LOOP the coroutine runs on a real asyncio loop instead (its clock is the virtual one)."""
+    if USE_LOOP:
+        return _loop().run_until_complete(coro)
     try:
         y = coro.send(None)
     except StopIteration as si:
@@ -790,7 +806,9 @@ def run_case(
         env.faults = dict(faults)
     env.call = calls[0]
     env.call_has_handler = any(c.get("handler") is not None for c in calls)
+    global USE_LOOP
     bootstrap.set_clock(env.clock)
+    USE_LOOP = cfg.get("attempt_timeout") is not None and not suspend
     try:
         if cfg.get("budget") is not None and env.budget is None:
             env.budget = make_budget(env, cfg["budget"])
@@ -831,6 +849,7 @@ def run_case(
                     raise
                 env.trace.append(("call_end", j, "raise", x, env.now()))
     finally:
+        USE_LOOP = False
         if not keep_clock:
             bootstrap.set_clock(None)
     return env
@@ -970,6 +989,7 @@ def _config_from(rkw: dict) -> RetryConfig:
         before_sleep=rkw.get("before_sleep"),
         sleeper=rkw.get("sleeper"),
         budget=rkw["budget"],
+        attempt_timeout_s=rkw.get("attempt_timeout_s"),
     )
 
 
